@@ -1,18 +1,25 @@
+import os
+
 from .props import HDR, standard
 
+# Teeth test / fix evaluation only: VERIF_C05_BALANCE_GO=<scratch copy of balance.go> is supplied to the
+# build through the overlay instead of /repo/services/keep-balance/balance.go (nothing in /repo is touched).
 
 def run(ctx):
     n = {"quick": 2000, "thorough": 40000}[ctx.tier]
     nx = {"quick": 3000, "thorough": 10 ** 9}[ctx.tier]   # thorough: the whole enumeration (~132 000 layouts)
 
+    rep = os.environ.get("VERIF_C05_BALANCE_GO")
+    replace = {"services/keep-balance/balance.go": rep} if rep else None
+
     def stages(ctx, mult, suffix, off):
         hdr = HDR.format(imports="model.C05_model model.C05_run")
         ctx.stage("c05" + suffix, "services/keep-balance", "main", ["C05/zz_verif_c05_test.go"], "TestVerifC05$",
                   n * mult, hdr, seed_offset=off, shard=500 if ctx.tier == "quick" else 2500,
-                  env={"VERIF_STAGE": "c05" + suffix}, timeout=1500)
+                  env={"VERIF_STAGE": "c05" + suffix}, timeout=1500, replace=replace)
         ctx.stage("c05x" + suffix, "services/keep-balance", "main", ["C05/zz_verif_c05_test.go"], "TestVerifC05X$",
                   nx * mult, hdr, seed_offset=off, shard=500 if ctx.tier == "quick" else 2500,
-                  env={"VERIF_STAGE": "c05x" + suffix}, timeout=1500)
+                  env={"VERIF_STAGE": "c05x" + suffix}, timeout=1500, replace=replace)
     return standard(ctx, "C05", ["model/C05_run.vo"], stages,
                     known_bits={4: "F1", 8: "F10", 16: "F12", 32: "F8"},
                     rule="layouts generated in 7 strata (general; shared device x empty better-ranked slot; one class twice on a server x "
